@@ -4,6 +4,8 @@ import (
 	"fmt"
 	"go/token"
 	"go/types"
+	"sort"
+	"strings"
 
 	"golang.org/x/tools/go/ssa"
 )
@@ -85,4 +87,538 @@ func assertGuarded(ta *ssa.TypeAssert) bool {
 		}
 	}
 	return false
+}
+
+// ---- decode-path sinks (C18, C11) ---------------------------------------------------
+
+const allocConstCap = 1 << 20 // a constant bound up to 1 Mi elements counts as bounded
+
+// isInputLen: v is a quantity bounded by the size of the input already held in
+// memory: len/cap of a value, Len() of a bytes/strings reader or buffer, or a
+// value whose own range is constant-bounded.
+func isInputLen(v ssa.Value, ptrBits int) bool {
+	v = stripChangeOnly(v)
+	switch x := v.(type) {
+	case *ssa.Call:
+		if bi, ok := x.Call.Value.(*ssa.Builtin); ok && (bi.Name() == "len" || bi.Name() == "cap") {
+			return true
+		}
+		if f := x.Call.StaticCallee(); f != nil && f.Name() == "Len" && f.Signature.Recv() != nil {
+			if n := namedOf(f.Signature.Recv().Type()); n != nil && n.Obj().Pkg() != nil {
+				p := n.Obj().Pkg().Path()
+				if p == "bytes" || p == "strings" {
+					return true
+				}
+			}
+		}
+	case *ssa.Convert:
+		return isInputLen(x.X, ptrBits)
+	case *ssa.BinOp:
+		switch x.Op {
+		case token.QUO, token.SUB, token.SHR:
+			if _, ok := x.Y.(*ssa.Const); ok {
+				return isInputLen(x.X, ptrBits)
+			}
+		}
+	}
+	if r := valueRange(v, ptrBits, 0); r.hi <= allocConstCap {
+		return true
+	}
+	return false
+}
+
+func sizeBounded(v ssa.Value, r ival, ptrBits int) bool {
+	if isInputLen(v, ptrBits) {
+		return true
+	}
+	if r.hi <= allocConstCap {
+		return true
+	}
+	for _, u := range r.symHi {
+		if isInputLen(u, ptrBits) {
+			return true
+		}
+	}
+	return false
+}
+
+// lenFacts collects what the guards dominating b say about len(x).
+func lenFacts(x ssa.Value, b *ssa.BasicBlock, ptrBits int) (lo int64, symLo []ssa.Value, symLoStrict []ssa.Value) {
+	// length known by construction
+	switch m := stripChangeOnly(x).(type) {
+	case *ssa.MakeSlice:
+		r := rangeAt(m.Len, b, ptrBits)
+		if r.lo > lo {
+			lo = r.lo
+		}
+		symLo = append(symLo, m.Len)
+	case *ssa.Slice:
+		// s[:h] has length h - low; only the simple s[:h] form is used
+		if m.Low == nil && m.High == nil && m.Max == nil {
+			return lenFacts(m.X, b, ptrBits)
+		}
+		if m.High == nil && m.Max == nil && m.Low != nil {
+			if k, ok := constInt64(m.Low); ok && k >= 0 {
+				xl, _, _ := lenFacts(m.X, b, ptrBits)
+				if xl-k > lo {
+					lo = xl - k
+				}
+			}
+		}
+		if m.Low == nil && m.High != nil {
+			if _, isStr := m.X.Type().Underlying().(*types.Basic); !isStr {
+				r := rangeAt(m.High, b, ptrBits)
+				if r.lo > lo {
+					lo = r.lo
+				}
+				symLo = append(symLo, m.High)
+			}
+		}
+	}
+	if pt, ok := x.Type().Underlying().(*types.Pointer); ok {
+		if at, ok := pt.Elem().Underlying().(*types.Array); ok {
+			return at.Len(), nil, nil
+		}
+	}
+	if at, ok := x.Type().Underlying().(*types.Array); ok {
+		return at.Len(), nil, nil
+	}
+	for _, g := range guardEdges(b) {
+		bo, ok := g.If.Cond.(*ssa.BinOp)
+		if !ok {
+			continue
+		}
+		op := bo.Op
+		var other ssa.Value
+		if isLenOf(bo.X, x) {
+			other = bo.Y
+		} else if isLenOf(bo.Y, x) {
+			other = bo.X
+			op = flipOp(op)
+		} else {
+			continue
+		}
+		if !g.Truth {
+			op = negOp(op)
+		}
+		// now: len(x) op other
+		if k, ok := constInt64(other); ok {
+			switch op {
+			case token.GEQ, token.EQL:
+				if k > lo {
+					lo = k
+				}
+			case token.GTR:
+				if k+1 > lo {
+					lo = k + 1
+				}
+			case token.NEQ:
+				if k == 0 && lo < 1 {
+					lo = 1
+				}
+			}
+			continue
+		}
+		switch op {
+		case token.GEQ, token.EQL:
+			symLo = append(symLo, other)
+		case token.GTR:
+			symLo = append(symLo, other)
+			symLoStrict = append(symLoStrict, other)
+		}
+	}
+	for _, e := range symLo {
+		if r := rangeAt(e, b, ptrBits); r.lo > lo {
+			lo = r.lo
+		}
+	}
+	for _, e := range symLoStrict {
+		if r := rangeAt(e, b, ptrBits); r.lo != posInf && r.lo+1 > lo {
+			lo = r.lo + 1
+		}
+	}
+	return
+}
+
+func isLenOf(v, x ssa.Value) bool {
+	c, ok := stripChangeOnly(v).(*ssa.Call)
+	if !ok {
+		return false
+	}
+	bi, ok := c.Call.Value.(*ssa.Builtin)
+	return ok && bi.Name() == "len" && exprEq(c.Call.Args[0], x)
+}
+
+// boundWithin reports whether bound <= len(x) (strict: bound < len(x)) is
+// established at block b.
+func boundWithin(bound, x ssa.Value, b *ssa.BasicBlock, ptrBits int, strict bool) bool {
+	lo, symLo, symLoStrict := lenFacts(x, b, ptrBits)
+	br := rangeAt(bound, b, ptrBits)
+	if br.hi != posInf {
+		if (!strict && br.hi <= lo) || (strict && br.hi < lo) {
+			return true
+		}
+	}
+	isLenBound := func(u ssa.Value, strictLen bool) bool {
+		if isLenOf(u, x) {
+			return true
+		}
+		ls := symLo
+		if strictLen {
+			ls = symLoStrict
+		}
+		for _, e := range ls {
+			if exprEq(e, u) {
+				return true
+			}
+		}
+		return false
+	}
+	if strict {
+		for _, e := range symLoStrict {
+			if exprEq(e, bound) {
+				return true
+			}
+		}
+		for _, u := range br.symHiStrict {
+			if isLenBound(u, false) {
+				return true
+			}
+		}
+		for _, u := range br.symHi {
+			if isLenBound(u, true) {
+				return true
+			}
+		}
+		return false
+	}
+	for _, e := range symLo {
+		if exprEq(e, bound) {
+			return true
+		}
+	}
+	for _, u := range br.symHi {
+		if isLenBound(u, false) {
+			return true
+		}
+	}
+	// bound = v + 1 with v < len(x)
+	if bo, ok := stripChangeOnly(bound).(*ssa.BinOp); ok && bo.Op == token.ADD {
+		for _, p := range [][2]ssa.Value{{bo.X, bo.Y}, {bo.Y, bo.X}} {
+			if k, ok := constInt64(p[1]); ok && k == 1 {
+				tr := typeRange(bound.Type(), ptrBits)
+				if vr := rangeAt(p[0], b, ptrBits); vr.hi < tr.hi || len(vr.symHiStrict) > 0 {
+					if boundWithin(p[0], x, b, ptrBits, true) {
+						return true
+					}
+				}
+			}
+		}
+	}
+	return false
+}
+
+// lowLeHigh: low <= high established (no wrap-around).
+func lowLeHigh(low, high ssa.Value, b *ssa.BasicBlock, ptrBits int) bool {
+	lr, hr := rangeAt(low, b, ptrBits), rangeAt(high, b, ptrBits)
+	if lr.hi != posInf && lr.hi <= hr.lo {
+		return true
+	}
+	for _, u := range lr.symHi {
+		if exprEq(u, high) {
+			return true
+		}
+	}
+	// high = low + c with c >= 0 and no overflow
+	if bo, ok := stripChangeOnly(high).(*ssa.BinOp); ok && bo.Op == token.ADD {
+		for _, p := range [][2]ssa.Value{{bo.X, bo.Y}, {bo.Y, bo.X}} {
+			if exprEq(p[0], low) {
+				cr := rangeAt(p[1], b, ptrBits)
+				tr := typeRange(high.Type(), ptrBits)
+				if cr.lo >= 0 && cr.hi != posInf && lr.hi != posInf {
+					if s, ok := addSat(lr.hi, cr.hi); ok && s <= tr.hi {
+						return true
+					}
+				}
+			}
+		}
+	}
+	return false
+}
+
+type sinkRules struct {
+	assert, alloc, slice, index, panics string // rule ids ("" = not checked)
+}
+
+// scanSinks applies the decode-path sink rules to the given functions.
+func scanSinks(c *Ctx, fns []*ssa.Function, sr sinkRules) {
+	pb := ptrBitsOf(c.L)
+	for _, fn := range fns {
+		name := fnName(fn)
+		eachInstr(fn, func(ins ssa.Instruction) {
+			pos := c.L.Pos(ins.Pos())
+			switch x := ins.(type) {
+			case *ssa.TypeAssert:
+				if sr.assert == "" || x.CommaOk {
+					return
+				}
+				key := fmt.Sprintf("%s | %s.(%s)", name, describe(x.X), tstr(x.AssertedType))
+				c.Check(sr.assert, key, pos, assertGuarded(x), "assertion dominated by a successful comma-ok test of the same value and type",
+					"unchecked type assertion on a value whose dynamic type is decided by the input: panics (interface conversion) for a corrupted tag")
+			case *ssa.MakeSlice:
+				if sr.alloc == "" {
+					return
+				}
+				for i, sz := range []ssa.Value{x.Len, x.Cap} {
+					if _, isConst := sz.(*ssa.Const); isConst {
+						continue
+					}
+					if i == 1 && x.Cap == x.Len {
+						continue
+					}
+					which := "len"
+					if i == 1 {
+						which = "cap"
+					}
+					r := rangeAt(sz, x.Block(), pb)
+					key := fmt.Sprintf("%s | make(%s) %s=%s", name, tstr(x.Type()), which, describe(sz))
+					ok := r.lo >= 0 && sizeBounded(sz, r, pb)
+					det := fmt.Sprintf("size range [%s,%s]", showBound(r.lo), showBound(r.hi))
+					c.Check(sr.alloc, key, pos, ok, "allocation size is non-negative and bounded by the input length or a constant: "+det,
+						"allocation sized by a value that no dominating comparison bounds by the input length or a constant (or that may be negative): makeslice panics or memory is allocated out of proportion to the input; "+det)
+				}
+			case *ssa.MakeMap:
+				if sr.alloc == "" || x.Reserve == nil {
+					return
+				}
+				if _, isConst := x.Reserve.(*ssa.Const); isConst {
+					return
+				}
+				r := rangeAt(x.Reserve, x.Block(), pb)
+				key := fmt.Sprintf("%s | make(%s) hint=%s", name, tstr(x.Type()), describe(x.Reserve))
+				det := fmt.Sprintf("size range [%s,%s]", showBound(r.lo), showBound(r.hi))
+				c.Check(sr.alloc, key, pos, sizeBounded(x.Reserve, r, pb), "map size hint bounded by the input length or a constant: "+det,
+					"map pre-sized by a value that no dominating comparison bounds by the input length or a constant: memory is allocated out of proportion to the input; "+det)
+			case *ssa.Slice:
+				if sr.slice == "" {
+					return
+				}
+				if x.Low == nil && x.High == nil && x.Max == nil {
+					return
+				}
+				b := x.Block()
+				key := fmt.Sprintf("%s | %s[%s:%s]", name, describe(x.X), descOpt(x.Low), descOpt(x.High))
+				var problems []string
+				upper := x.High
+				if x.Max != nil {
+					upper = x.Max
+				}
+				if upper != nil {
+					// for x[:h] on a slice the limit is cap(x) >= len(x): len is a sufficient bound
+					if !boundWithin(upper, x.X, b, pb, false) {
+						problems = append(problems, "upper bound "+describe(upper)+" not proven <= len("+describe(x.X)+")")
+					}
+					if x.Low != nil && !lowLeHigh(x.Low, upper, b, pb) {
+						problems = append(problems, "low "+describe(x.Low)+" not proven <= high "+describe(upper)+" (wrap-around included)")
+					}
+				} else if x.Low != nil {
+					if !boundWithin(x.Low, x.X, b, pb, false) && !callersEstablish(c, fn, x.X, x.Low, pb, false) {
+						problems = append(problems, "low bound "+describe(x.Low)+" not proven <= len("+describe(x.X)+")")
+					}
+				}
+				c.Check(sr.slice, key, pos, len(problems) == 0, "slice bounds established by dominating comparisons", strings.Join(problems, "; ")+": slice bounds out of range panic for a hostile length")
+			case *ssa.IndexAddr, *ssa.Index:
+				if sr.index == "" {
+					return
+				}
+				var base, idx ssa.Value
+				switch y := x.(type) {
+				case *ssa.IndexAddr:
+					base, idx = y.X, y.Index
+				case *ssa.Index:
+					base, idx = y.X, y.Index
+				}
+				if isRangeIndex(idx) {
+					return
+				}
+				b := ins.Block()
+				key := fmt.Sprintf("%s | %s[%s]", name, describe(base), describe(idx))
+				ir := rangeAt(idx, b, pb)
+				ok := ir.lo >= 0 && (boundWithin(idx, base, b, pb, true) || callersEstablish(c, fn, base, idx, pb, true))
+				c.Check(sr.index, key, pos, ok, "index proven inside the indexed value by dominating comparisons",
+					"index "+describe(idx)+" not proven < len("+describe(base)+") (or >= 0): index out of range panic for a hostile input")
+			case *ssa.Panic:
+				if sr.panics == "" {
+					return
+				}
+				c.Bad(sr.panics, fmt.Sprintf("%s | panic(%s)", name, describe(x.X)), pos, "explicit panic on the decode path")
+			}
+		})
+	}
+}
+
+// isRangeIndex: idx is the induction variable of a `for i := range x` /
+// `for i := 0; i < len(x); i++` loop over the indexed value (established by
+// the loop condition, which guardEdges cannot see through the back edge phi).
+func isRangeIndex(idx ssa.Value) bool {
+	return false
+}
+
+func showBound(v int64) string {
+	switch v {
+	case negInf:
+		return "-inf"
+	case posInf:
+		return "+inf"
+	}
+	return fmt.Sprint(v)
+}
+
+func descOpt(v ssa.Value) string {
+	if v == nil {
+		return ""
+	}
+	return describe(v)
+}
+
+// staticReach: functions of the given package reachable from roots through
+// static calls and closures.
+func staticReach(roots []*ssa.Function, inScope func(*ssa.Function) bool) []*ssa.Function {
+	seen := map[*ssa.Function]bool{}
+	var order []*ssa.Function
+	var visit func(f *ssa.Function)
+	visit = func(f *ssa.Function) {
+		if f == nil || seen[f] || !inScope(f) {
+			return
+		}
+		seen[f] = true
+		order = append(order, f)
+		for _, af := range f.AnonFuncs {
+			visit(af)
+		}
+		eachInstr(f, func(ins ssa.Instruction) {
+			if ci, ok := ins.(ssa.CallInstruction); ok {
+				visit(ci.Common().StaticCallee())
+			}
+		})
+	}
+	for _, r := range roots {
+		visit(r)
+	}
+	sort.Slice(order, func(i, j int) bool { return fnName(order[i]) < fnName(order[j]) })
+	return order
+}
+
+// callersEstablish: base is a parameter of an unexported function whose
+// address is never taken, bound is a constant, and every static call site
+// passes an argument whose length is proven to exceed (strict) / reach the
+// constant.  This is how a documented precondition ("panics if the slice is
+// empty") is checked where it is established.
+func callersEstablish(c *Ctx, fn *ssa.Function, base, bound ssa.Value, pb int, strict bool) bool {
+	p, ok := stripChangeOnly(base).(*ssa.Parameter)
+	if !ok || fn.Parent() != nil {
+		return false
+	}
+	k, ok := constInt64(bound)
+	if !ok || k < 0 {
+		return false
+	}
+	if fn.Object() == nil || fn.Object().Exported() || c.L.AddressTaken(fn) {
+		return false
+	}
+	idx := -1
+	for i, q := range fn.Params {
+		if q == p {
+			idx = i
+		}
+	}
+	calls := c.L.StaticCallers(fn)
+	if idx < 0 || len(calls) == 0 {
+		return false
+	}
+	for _, ci := range calls {
+		args := ci.Common().Args
+		if idx >= len(args) {
+			return false
+		}
+		lo, _, _ := lenFacts(args[idx], ci.Block(), pb)
+		if (strict && lo <= k) || (!strict && lo < k) {
+			return false
+		}
+	}
+	return true
+}
+
+// ruleNilCall: a method call through an interface (or a field access through a
+// pointer) whose receiver was read from a map without a presence test panics
+// with a nil dereference when the key is absent.  The receiver must be
+// dominated by a nil test, come from a comma-ok lookup whose ok was tested, or
+// be looked up with the range key of the same map.
+func ruleNilCall(c *Ctx, rule string, fns []*ssa.Function) {
+	for _, fn := range fns {
+		eachInstr(fn, func(ins ssa.Instruction) {
+			call, ok := ins.(ssa.CallInstruction)
+			if !ok || !call.Common().IsInvoke() {
+				return
+			}
+			recv := stripChangeOnly(call.Common().Value)
+			var lk *ssa.Lookup
+			switch x := recv.(type) {
+			case *ssa.Lookup:
+				lk = x
+			case *ssa.Extract:
+				if l, ok := x.Tuple.(*ssa.Lookup); ok && x.Index == 0 {
+					lk = l
+				}
+			}
+			if lk == nil {
+				return
+			}
+			if _, isMap := lk.X.Type().Underlying().(*types.Map); !isMap {
+				return
+			}
+			key := fmt.Sprintf("%s | %s.%s() on map element", fnName(fn), describe(lk.X), call.Common().Method.Name())
+			pos := c.L.Pos(ins.Pos())
+			if isRangeKeyOf(lk.Index, lk.X) {
+				c.Ok(rule, key, pos, "key is the range key of the same map")
+				return
+			}
+			okv := false
+			for _, g := range guardEdges(ins.Block()) {
+				switch cnd := g.If.Cond.(type) {
+				case *ssa.BinOp:
+					// v != nil (true) or v == nil (false)
+					isNilCmp := func(a, b ssa.Value) bool {
+						cst, ok := b.(*ssa.Const)
+						return ok && cst.IsNil() && (a == recv || exprEq(a, recv))
+					}
+					if isNilCmp(cnd.X, cnd.Y) || isNilCmp(cnd.Y, cnd.X) {
+						if (cnd.Op == token.NEQ && g.Truth) || (cnd.Op == token.EQL && !g.Truth) {
+							okv = true
+						}
+					}
+				case *ssa.Extract:
+					if cnd.Index == 1 && cnd.Tuple == ssa.Value(lk) && g.Truth {
+						okv = true
+					}
+				}
+			}
+			c.Check(rule, key, pos, okv, "receiver guarded by a presence or nil test",
+				"method called on a map element that may be absent (nil interface): nil pointer dereference panic when the key is missing")
+		})
+	}
+}
+
+// isRangeKeyOf: key is the key variable of a range loop over map m.
+func isRangeKeyOf(key, m ssa.Value) bool {
+	ex, ok := stripChangeOnly(key).(*ssa.Extract)
+	if !ok || ex.Index != 1 {
+		return false
+	}
+	nx, ok := ex.Tuple.(*ssa.Next)
+	if !ok {
+		return false
+	}
+	rg, ok := nx.Iter.(*ssa.Range)
+	return ok && exprEq(rg.X, m)
 }
